@@ -249,9 +249,10 @@ package redis
 //@   loop 0 unfold times(0, len(b.buf))
 //@   loop 0 invariant disjoint(b.buf, b.slice.buf)
 //@   loop 0 invariant readerRI(b) && (b.err == nil ==> windowok(b)) && b.rd == old(b.rd) && 0 <= size && (!isnil(last) ==> size >= len(last) && len(last) >= 1)
-//@   loop 0 invariant (cap(full) == 0 || fresh(full)) && (fresh(b.slice.buf) || within(b.slice.buf, old(b.slice.buf))) && b.buf == old(b.buf)
+//@   loop 0 invariant (cap(full) == 0 || fresh(full)) && (fresh(b.slice.buf) || (within(b.slice.buf, old(b.slice.buf)) && withincap(b.slice.buf, old(b.slice.buf)))) && b.buf == old(b.buf)
 //@   loop 0 assume size <= 2305843009213693952 && len(b.buf) <= 2305843009213693952
 //@   loop 1 invariant disjoint(buf, b.buf) && disjoint(b.buf, b.slice.buf) && b.buf == old(b.buf) && (b.err == nil ==> windowok(b))
+//@   loop 1 invariant fresh(b.slice.buf) || (within(b.slice.buf, old(b.slice.buf)) && withincap(b.slice.buf, old(b.slice.buf)))
 //@   loop 1 invariant @assembling size <= 2305843009213693952 && cL <= 2305843009213693952 && cL == len(b.buf) && cP == old(rpos(b)) && rpos(b) == cP + size && size == times(len(full), cL) + len(last) && n == times(rangeindex + 1, cL) && rangeindex + 1 <= len(full)
 //@   loop 1 invariant @fragments-kept forall j int :: {full[j]} 0 <= j && j < len(full) ==> len(full[j]) == cL && disjoint(full[j], buf)
 //@   loop 1 invariant @offsets-grow forall j int :: {times(j, cL)} 0 <= j && j <= len(full) ==> 0 <= times(j, cL) && times(j, cL) <= times(len(full), cL)
@@ -274,6 +275,7 @@ package redis
 //@   instance @line-ends-at-first-delimiter of loop 1 @line-is-the-stream with k = k - n
 //@   loop 1 unfold times(0, cL)
 //@   loop 1 invariant 0 <= n && n <= len(buf) && len(buf) == size && !isnil(last) && size >= len(last) && len(last) >= 1 && (size == 0 || fresh(buf) || within(buf, old(b.slice.buf)))
+//@   ensures @slab-only-shrinks-or-is-new fresh(b.slice.buf) || (within(b.slice.buf, old(b.slice.buf)) && withincap(b.slice.buf, old(b.slice.buf)))
 
 //@ func (*Reader).ReadFull
 //@   prop C10 C11 C03 C01
@@ -282,6 +284,7 @@ package redis
 //@   ensures @ri readerRI(b) && b.buf == old(b.buf) && b.rd == old(b.rd) && (b.err == nil ==> windowok(b)) && disjoint(b.buf, b.slice.buf)
 //@   ensures @exact result1 == nil && n > 0 ==> len(result0) == n && disjoint(result0, b.buf)
 //@   ensures @next-n-stream-bytes result1 == nil && n > 0 && old(b.err) == nil ==> b.err == nil && rpos(b) == old(rpos(b)) + n && forall k int :: 0 <= k && k < n ==> result0[k] == stream[src(b)][old(rpos(b)) + k]
+//@   ensures @slab-only-shrinks-or-is-new fresh(b.slice.buf) || (within(b.slice.buf, old(b.slice.buf)) && withincap(b.slice.buf, old(b.slice.buf)))
 
 // ---- RESP decoder (C10 C11) ---------------------------------------------------------
 
@@ -290,6 +293,7 @@ package redis
 //@   requires decoderOK(d)
 //@   modifies d.br.r, d.br.w, d.br.err, d.br.buf[0:len(d.br.buf)], fetched
 //@   ensures @ri decoderOK(d) && d.br == old(d.br)
+//@   ensures @a-number-was-read-from-a-healthy-reader result1 == nil ==> d.br.err == nil && rpos(d.br) >= old(rpos(d.br)) + 2
 
 //@ func (*decoder).decodeTextBytes
 //@   prop C10 C11 C03 C01
@@ -297,6 +301,9 @@ package redis
 //@   modifies d.br.r, d.br.w, d.br.err, d.br.buf[0:len(d.br.buf)], d.br.slice.allocs, d.br.slice.buf, d.br.slice.buf[0:len(d.br.slice.buf)], fetched
 //@   ensures @ri decoderOK(d) && d.br == old(d.br)
 //@   ensures @text-does-not-alias-the-read-buffer result1 == nil ==> disjoint(result0, d.br.buf)
+//@   ensures @text-is-the-next-line-without-its-terminator result1 == nil ==> rpos(d.br) == old(rpos(d.br)) + len(result0) + 2 && stream[src(d.br)][old(rpos(d.br)) + len(result0)] == 13 && stream[src(d.br)][old(rpos(d.br)) + len(result0) + 1] == 10 && forall k int :: 0 <= k && k < len(result0) ==> result0[k] == stream[src(d.br)][old(rpos(d.br)) + k]
+//@   ensures @text-has-no-line-feed result1 == nil ==> forall k int :: 0 <= k && k < len(result0) ==> result0[k] != 10
+//@   ensures @slab-only-shrinks-or-is-new fresh(d.br.slice.buf) || (within(d.br.slice.buf, old(d.br.slice.buf)) && withincap(d.br.slice.buf, old(d.br.slice.buf)))
 
 //@ func (*decoder).decodeBulkString
 //@   prop C10 C11 C03 C01
@@ -305,6 +312,8 @@ package redis
 //@   ensures @ri decoderOK(d) && d.br == old(d.br)
 //@   ensures @bounded result1 == nil ==> len(result0) <= 536870912
 //@   ensures @bulk-does-not-alias-the-read-buffer result1 == nil && !isnil(result0) ==> disjoint(result0, d.br.buf)
+//@   ensures @bulk-is-the-stream-before-its-terminator result1 == nil && !isnil(result0) ==> stream[src(d.br)][rpos(d.br) - 2] == 13 && stream[src(d.br)][rpos(d.br) - 1] == 10 && forall k int :: 0 <= k && k < len(result0) ==> result0[k] == stream[src(d.br)][rpos(d.br) - 2 - len(result0) + k]
+//@   ensures @slab-only-shrinks-or-is-new fresh(d.br.slice.buf) || (within(d.br.slice.buf, old(d.br.slice.buf)) && withincap(d.br.slice.buf, old(d.br.slice.buf)))
 
 //@ func (*decoder).decodeArray
 //@   prop C10 C11
@@ -313,19 +322,23 @@ package redis
 //@   requires @nesting-depth-in-range 0 <= d.depth && d.depth <= 32
 //@   ensures @nesting-depth-restored d.depth == old(d.depth)
 //@   requires decoderOK(d)
-//@   modifies all
+//@   modifies d.depth, d.err, d.br.r, d.br.w, d.br.err, d.br.buf[0:len(d.br.buf)], d.br.slice.allocs, d.br.slice.buf, d.br.slice.buf[0:len(d.br.slice.buf)], fetched
 //@   ensures @ri d.br == old(d.br) && decoderOK(d)
 //@   ensures @bounded result1 == nil ==> len(result0) <= 1048576
 //@   loop 0 invariant d.br == old(d.br) && decoderOK(d) && len(array) == n && n <= 1048576 && d.depth == old(d.depth) + 1 && d.depth <= 32
+//@   loop 0 invariant fresh(array) && (fresh(d.br.slice.buf) || (within(d.br.slice.buf, old(d.br.slice.buf)) && withincap(d.br.slice.buf, old(d.br.slice.buf))))
+//@   ensures @slab-only-shrinks-or-is-new fresh(d.br.slice.buf) || (within(d.br.slice.buf, old(d.br.slice.buf)) && withincap(d.br.slice.buf, old(d.br.slice.buf)))
 
 //@ func (*decoder).decodeInline
 //@   prop C10 C11
 //@   requires decoderOK(d)
-//@   modifies all
+//@   modifies d.depth, d.err, d.br.r, d.br.w, d.br.err, d.br.buf[0:len(d.br.buf)], d.br.slice.allocs, d.br.slice.buf, d.br.slice.buf[0:len(d.br.slice.buf)], fetched
 //@   ensures @ri d.br == old(d.br) && decoderOK(d)
 //@   ensures @nonempty result1 == nil ==> result0 != nil && result0.Type == 42 && len(result0.Array) >= 1
 //@   loop 0 invariant 0 <= l && l <= r + 1 && r <= len(b) + 1 && d.br == old(d.br) && decoderOK(d)
+//@   loop 0 invariant (cap(multi) == 0 || fresh(multi)) && (fresh(d.br.slice.buf) || (within(d.br.slice.buf, old(d.br.slice.buf)) && withincap(d.br.slice.buf, old(d.br.slice.buf))))
 //@   ensures @nesting-depth-untouched d.depth == old(d.depth)
+//@   ensures @slab-only-shrinks-or-is-new fresh(d.br.slice.buf) || (within(d.br.slice.buf, old(d.br.slice.buf)) && withincap(d.br.slice.buf, old(d.br.slice.buf)))
 
 //@ func (*decoder).decodeResp
 //@   prop C10 C11
@@ -334,9 +347,11 @@ package redis
 //@   requires @nesting-depth-in-range 0 <= d.depth && d.depth <= 32
 //@   ensures @nesting-depth-restored d.depth == old(d.depth)
 //@   requires decoderOK(d)
-//@   modifies all
+//@   modifies d.depth, d.err, d.br.r, d.br.w, d.br.err, d.br.buf[0:len(d.br.buf)], d.br.slice.allocs, d.br.slice.buf, d.br.slice.buf[0:len(d.br.slice.buf)], fetched
 //@   ensures @ri d.br == old(d.br) && decoderOK(d)
 //@   ensures @value result1 == nil ==> result0 != nil
+//@   ensures @simple-strings-and-errors-have-no-line-feed result1 == nil && (result0.Type == 43 || result0.Type == 45) ==> forall i int :: 0 <= i && i < len(result0.Text) ==> result0.Text[i] != 10
+//@   ensures @slab-only-shrinks-or-is-new fresh(d.br.slice.buf) || (within(d.br.slice.buf, old(d.br.slice.buf)) && withincap(d.br.slice.buf, old(d.br.slice.buf)))
 
 //@ func (*decoder).decode
 //@   prop C10 C11
@@ -345,18 +360,22 @@ package redis
 //@   requires @nesting-depth-in-range 0 <= d.depth && d.depth <= 32
 //@   ensures @nesting-depth-restored d.depth == old(d.depth)
 //@   requires decoderOK(d)
-//@   modifies all
+//@   modifies d.depth, d.err, d.br.r, d.br.w, d.br.err, d.br.buf[0:len(d.br.buf)], d.br.slice.allocs, d.br.slice.buf, d.br.slice.buf[0:len(d.br.slice.buf)], fetched
 //@   ensures @ri d.br == old(d.br) && decoderOK(d)
 //@   ensures @value result1 == nil ==> result0 != nil
+//@   ensures @simple-strings-and-errors-have-no-line-feed result1 == nil && (result0.Type == 43 || result0.Type == 45) ==> forall i int :: 0 <= i && i < len(result0.Text) ==> result0.Text[i] != 10
+//@   ensures @slab-only-shrinks-or-is-new fresh(d.br.slice.buf) || (within(d.br.slice.buf, old(d.br.slice.buf)) && withincap(d.br.slice.buf, old(d.br.slice.buf)))
 
 //@ func (*decoder).Decode
 //@   prop C10 C11
 //@   requires decoderOK(d)
 //@   requires @nesting-depth-in-range 0 <= d.depth && d.depth <= 32
 //@   ensures @nesting-depth-restored d.depth == old(d.depth)
-//@   modifies all
+//@   modifies d.depth, d.err, d.br.r, d.br.w, d.br.err, d.br.buf[0:len(d.br.buf)], d.br.slice.allocs, d.br.slice.buf, d.br.slice.buf[0:len(d.br.slice.buf)], fetched
 //@   ensures @ri d.br == old(d.br) && decoderOK(d)
 //@   ensures @value result1 == nil ==> result0 != nil
+//@   ensures @simple-strings-and-errors-have-no-line-feed result1 == nil && (result0.Type == 43 || result0.Type == 45) ==> forall i int :: 0 <= i && i < len(result0.Text) ==> result0.Text[i] != 10
+//@   ensures @slab-only-shrinks-or-is-new fresh(d.br.slice.buf) || (within(d.br.slice.buf, old(d.br.slice.buf)) && withincap(d.br.slice.buf, old(d.br.slice.buf)))
 
 // ---- RESP value constructors -----------------------------------------------------------
 
